@@ -20,7 +20,7 @@ GNext ==
          \/ Create(p, r) /\ H([op |-> "put", p |-> Name(p), row |-> Name(r), ent |-> Name(EntOf[r]), sim |-> FALSE])
          \* an update may carry the same date (millisecond) as the update of the same row just made on another peer:
          \* the two versions are then ordered by their signatures only
-         \/ Update(p, r) /\ \E sim \in (IF hist # <<>> /\ hist[Len(hist)].op = "put" /\ hist[Len(hist)].row = Name(r) /\ hist[Len(hist)].p # Name(p)
+         \/ Update(p, r) /\ \E sim \in (IF Mode # "none" /\ hist # <<>> /\ hist[Len(hist)].op = "put" /\ hist[Len(hist)].row = Name(r) /\ hist[Len(hist)].p # Name(p)
                                          THEN BOOLEAN ELSE {FALSE}) :
                                H([op |-> "put", p |-> Name(p), row |-> Name(r), ent |-> Name(EntOf[r]), sim |-> sim])
          \/ Delete(p, r) /\ H([op |-> "del", p |-> Name(p), row |-> Name(r), ent |-> Name(EntOf[r])])
